@@ -14,6 +14,7 @@ import (
 	"encoding/binary"
 	"encoding/json"
 	"fmt"
+	"math/big"
 	"os"
 	"path/filepath"
 	"sort"
@@ -48,6 +49,10 @@ type SpecCase struct {
 	Addr int    `json:"addr"`
 	Off  int    `json:"off"`
 	// kind "ctl" (WasmCtl.tla): a statement tree and its specified result for the arguments 0, 1, 2
+	// kind "ftrunc" (WasmTrunc.tla): sign, 72-bit magnitude in A, optional half, nan/inf
+	Neg     bool   `json:"neg"`
+	Half    int    `json:"half"`
+	Special string `json:"special"`
 	Prog  []CtlStmt         `json:"prog"`
 	Cases map[string]CtlRes `json:"cases"`
 }
@@ -139,7 +144,7 @@ func (st *CtlStmt) wat(sb *strings.Builder, ind string) {
 	}
 }
 
-var ctlCount, ctlTraps int
+var ctlCount, ctlTraps, ftruncCount int
 
 // Case: what the executors see
 type Case struct {
@@ -259,6 +264,43 @@ func build(cases []SpecCase) (string, []Case) {
 				lit = fmt.Sprint(int32(uint32(v)))
 			}
 			def = fmt.Sprintf("\t(func $%s (export \"%s\") (result %s)\n\t\t%s.const %s\n\t)\n", name, name, t, t, lit)
+			cs.Args = []string{}
+			cs.ArgTy = []string{}
+			cs.ResTy = t
+		case "ftrunc":
+			// a parameterless function applying the conversion to an exact constant
+			mag := new(big.Int)
+			for i := len(c.A) - 1; i >= 0; i-- {
+				mag.Lsh(mag, 8)
+				mag.Or(mag, big.NewInt(int64(c.A[i])))
+			}
+			lit := mag.String()
+			if c.Half == 1 {
+				lit += ".5"
+			}
+			if c.Special != "" {
+				lit = c.Special
+			}
+			if c.Neg {
+				lit = "-" + lit
+			}
+			src := "f64"
+			if strings.Contains(c.Op, "_f32_") {
+				src = "f32"
+			}
+			ftruncCount++
+			name = fmt.Sprintf("ftrunc_%s_%03d", strings.ReplaceAll(c.Op, ".", "_"), ftruncCount)
+			t := ty(c.W)
+			operand := fmt.Sprintf("\t\t%s.const %s\n", src, lit)
+			if c.Special != "" {
+				// Wa's WAT parser has no inf/nan literals: the operand is computed (x / 0)
+				num := map[string]string{"nan": "0", "inf": "1"}[c.Special]
+				if c.Neg {
+					num = "-" + num
+				}
+				operand = fmt.Sprintf("\t\t%s.const %s\n\t\t%s.const 0\n\t\t%s.div\n", src, num, src, src)
+			}
+			def = fmt.Sprintf("\t(func $%s (export \"%s\") (result %s)\n%s\t\t%s\n\t)\n", name, name, t, operand, c.Op)
 			cs.Args = []string{}
 			cs.ArgTy = []string{}
 			cs.ResTy = t
